@@ -753,6 +753,28 @@ fn find_relative_offsets() {
             }
         }}}}
     }}
+    // the same acceptance through the high-level API: textselection(&offset) on a text selection of a resource (bound to an
+    // annotation or not) - what OFFSET in a query and relative targets of ADD go through
+    let mut store = store_with_text();
+    for (i, (b, e)) in [(2usize, 5usize), (0, 9), (4, 4)].iter().enumerate() { store.annotate(AnnotationBuilder::new().with_id(format!("A{}", i)).with_target(SelectorBuilder::textselector("r", Offset::simple(*b, *e)))).unwrap(); }
+    let resource = store.resource("r").unwrap();
+    for (cb, ce) in [(2usize, 5usize), (0, 9), (4, 4), (3, 7), (9, 9), (0, 0)] {
+        let container = resource.textselection(&Offset::simple(cb, ce)).unwrap();
+        let len = (ce - cb) as isize;
+        let cursors = |v: isize| -> Vec<Cursor> { let mut c = vec![Cursor::EndAligned(v)]; if v >= 0 { c.push(Cursor::BeginAligned(v as usize)); } c };
+        let rel = |c: &Cursor| -> Option<isize> { match c { Cursor::BeginAligned(x) => if *x <= isize::MAX as usize { Some(*x as isize) } else { None }, Cursor::EndAligned(x) => if *x <= 0 && *x >= -len { Some(len + *x) } else { None } } };
+        let mut offsets: Vec<Offset> = vec![Offset::new(Cursor::BeginAligned(usize::MAX), Cursor::BeginAligned(usize::MAX)), Offset::new(Cursor::BeginAligned(0), Cursor::BeginAligned(usize::MAX)), Offset::new(Cursor::EndAligned(isize::MIN), Cursor::EndAligned(0))];
+        for bv in -(len + 3)..=(len + 6) { for ev in -(len + 3)..=(len + 6) { for bc in cursors(bv) { for ec in cursors(ev) { offsets.push(Offset::new(bc, ec)); } } } }
+        for off in offsets {
+            let want = match (rel(&off.begin), rel(&off.end)) { (Some(b), Some(e)) => 0 <= b && b <= e && e <= len, _ => false };
+            let got = std::panic::catch_unwind(std::panic::AssertUnwindSafe(|| container.textselection(&off).map(|t| (t.begin(), t.end()))));
+            let bad = match &got { Ok(Ok((tb, te))) => !want || Some(*tb as isize - cb as isize) != rel(&off.begin) || Some(*te as isize - cb as isize) != rel(&off.end), Ok(Err(_)) => want, Err(_) => true };
+            if bad {
+                println!("WITNESS {{\"clause\":\"FindText::textselection on a text selection/accept_iff\",\"container\":\"{}..{}\",\"offset\":\"{:?}\",\"result\":\"{:?}\",\"should_accept\":{}}}", cb, ce, off, got.map_err(|_| "panic"), want);
+                return;
+            }
+        }
+    }
     println!("NO-WITNESS find_relative_offsets");
 }
 
